@@ -36,6 +36,9 @@ def _crate_copy(wd, label, c):
     lock = os.path.join(runner.REPO, "Cargo.lock")
     if os.path.exists(lock):
         shutil.copy(lock, os.path.join(base, c["crate"], "Cargo.lock"))
+    if runner.REPO != "/repo":
+        ct = os.path.join(base, c["crate"], "Cargo.toml")
+        open(ct, "w").write(open(ct).read().replace('path = "/repo"', 'path = "%s"' % runner.REPO))
     return os.path.join(base, c["crate"])
 
 
